@@ -31,7 +31,7 @@ import numpy.random
 from pyannote.core import Segment
 from sortedcontainers import SortedSet
 
-from .continuum import Annotator, Continuum
+from .continuum import Annotator, Continuum, Unit
 
 
 class CorpusShufflingTool:
@@ -213,7 +213,9 @@ class CorpusShufflingTool:
                     continuum.add(annotator, Segment(cut, to_split.segment.end), to_split.annotation)
                     continuum.add(annotator, Segment(to_split.segment.start, cut), to_split.annotation)
                 except ValueError:
-                    continuum.add(annotator, to_split.segment, to_split.annotation)
+                    # a piece is too short to be a segment: the unit is left as it was
+                    # (the first piece, when it could be added, is withdrawn so that no duration is counted twice)
+                    units.discard(Unit(Segment(cut, to_split.segment.end), to_split.annotation))
                     continuum.add(annotator, to_split.segment, to_split.annotation)
 
 
